@@ -15,6 +15,8 @@ Tie
   * correspondence `url`:      Request.script_url / base_url / urllib.parse.quote against Escape.script_url / base_url / quote.
   * probe `htmlpage` (deterministic): welcome page (paths '' and '/') and demo pages with hostile Host / X-Forwarded-* / script
                                names WITHOUT marker; oracle = lxml element structure and token kinds equal to the benign page.
+  * probe `demostatic` (deterministic): names below /demo/static/ that are no regular file, on the packaged templates and on an
+                               instance with globals.template_dir; oracle = 404 that names no directory of the server.
   * correspondence `capabilities`: capabilities documents of the whole application for hostile Host / X-Forwarded-* values
                                against `fill segs (escape_html host_url)` with the segments of the benign document.
   * correspondence `appdoc`:   XML exception documents produced by the WHOLE application on a malformed-request
